@@ -9,41 +9,66 @@ import warnings
 import numpy as np
 
 from . import common
-from .common import Corr, flist
+from fractions import Fraction
+
+from .common import Corr, flist, frac2s
 
 ID = "C14"
 LEAN_MODULES = ["TempestVerif.Props.C14"]
 RULE = ("(1) labels->modes: generated label vectors (n<=14, K_fit<=6; full coverage permuted, gaps, singletons, sorted/reversed) fed to the "
-        "REAL ModeStatistics.from_particles with fit_mvstud replaced by a tagging stub (point id in coordinate 0) and np.random.choice on a tape; "
-        "K, the member list of every mode and the exact sequence fed to every fit are compared with Model.Modes (`modes.from`). "
+        "REAL ModeStatistics.from_particles with fit_mvstud replaced by a tagging stub (point id in coordinate 0; scripted dof: finite/inf/nan; "
+        "generated dof_fallback) and np.random.choice on a tape; K, the member list of every mode, the exact sequence fed to every fit "
+        "(`modes.from`) and the stored degrees of freedom (`modes.dof`) are compared with Model.Modes. "
         "(2) label->mode lookup: scripted RAW assignments in 0..K_fit+2 (present labels, labels without a mode, out-of-range labels) and probe "
-        "positions on a real StateManager; the REAL Mutator.run (parallel_mcmc intercepted: the `assignments` it receives, and "
-        "state['assignments'] afterwards), the real ModeStatistics.mode_index, then a real RWMRunner/TPCNRunner built with the received indices "
-        "and `_propose(k)` with randn/gamma taped: the mode whose mean AND Cholesky factor were used (decoded from the proposal); index, "
-        "relabelled assignment and mode members vs `modes.lookup` (nearest-mean fallback index computed exactly on the stub's means; probes "
-        "chosen off every bisector); also the labels=None path via the real from_global. "
+        "positions (dyadic, on and off the diagonal, d=1..3) on a real StateManager; the REAL Mutator.run (parallel_mcmc intercepted: the "
+        "`assignments` it receives, and state['assignments'] afterwards), the real ModeStatistics.mode_index, then a real RWMRunner/TPCNRunner "
+        "built with the received indices and `_propose(k)` with randn/gamma taped: the mode whose mean AND Cholesky factor were used (decoded "
+        "from the proposal); index, relabelled assignment and mode members vs `modes.lookup d2=<exact squared distances to the stub means>` "
+        "(the model takes the argmin itself; rows whose two smallest distances differ by < 1e-3 are not generated); also the labels=None "
+        "path via the real from_global. "
         "(3) cadence: real Trainer+Resampler sharing a recording clusterer double on a real StateManager, cluster_every 1..7 x warm-up 1..6 x "
-        "resume points x restored iter (+ random beta-bit schedules, clustering off); recorded N/F/P event string, verdict, iter vs `cad.trace`. "
+        "resume points (real to_dict/update_from_dict restore into fresh objects) x restored iter (+ random beta-bit schedules, clustering "
+        "off); recorded N/F/P event string, verdict, iter vs `cad.trace`. "
         "(4) real runs: real Sampler.run with the real HierarchicalGaussianMixture over cluster_every {1,2,3,5} x n_max_clusters {None,1,2} x "
-        "normalize, plus save/load/resume; clusterer events vs `cad.trace` on the observed beta schedule, and at every parallel_mcmc call "
-        "indices<K, state labels = ModeStatistics.labels[index], present raw labels keep their own mode, labels without a mode go to the "
-        "nearest mean, ModeStatistics.labels = sorted distinct training labels, finite means, symmetric scale matrices, cholesky ok, dof>0 "
-        "finite, K<=cap (grid includes two-mode targets of unequal height with cluster_every 3 and 7, where a stale clusterer label has no mode). "
+        "normalize, d in {1,2,3}, plus real save_state/load/resume; clusterer events vs `cad.trace` on the observed beta schedule, and at "
+        "every parallel_mcmc call: indices<K, state labels = ModeStatistics.labels[index], present raw labels keep their own mode, labels "
+        "without a mode go to the nearest mean, ModeStatistics.labels = sorted distinct training labels, finite means, symmetric scale "
+        "matrices, cholesky ok, dof>0 finite, K<=cap (grid includes two-mode targets of unequal height with cluster_every 3 and 7, where a "
+        "stale clusterer label has no mode); the wiring n_max_clusters -> max_iterations and the shared clusterer object vs `wire.maxit`. "
+        "(5) cholesky contract: generated d=1..4 matrices (SPD, badly scaled SPD, indefinite, negative definite, rank deficient, zero, tiny, "
+        "garbage above the diagonal, NaN) through the real np.linalg.cholesky and the real ModeStatistics constructor (batched): whatever is "
+        "returned must satisfy Lemmas.CholeskyPD.IsCholeskyFactor within 1e-9, and no object may exist for a clearly non-PD finite matrix. "
         "Non-trivial = (1,2) >=2 distinct labels and (a gap or unsorted order); (3) an annealing iteration with cluster_every>1 or a resume; "
-        "(4) every run.")
+        "(4) every run; (5) any batch that is not all plain SPD.")
 MODELLED = ["fit_mvstud is replaced by a tagging stub in suites 1-3 (its numerical output is C19's subject); the real one runs in suite 4",
             "the weighted draw inside from_particles is modelled as an arbitrary tape of local indices (np.random.choice patched)",
             "the beta schedule is abstracted to one bit per iteration (beta == 0?), arbitrary in the model",
+            "the clusterer is abstract in the cadence model (events fit/predict only): normalize on/off changes nothing there",
+            "the nearest-mean fallback is modelled as the first minimum of a row of K distances; the row itself (Euclidean norms, "
+            "BLAS/sqrt) is an input: suite 2 feeds the exact squared distances",
+            "np.linalg.cholesky enters the theorems only through its contract on FINITE input (IsCholeskyFactor, checked by suite 5); on a "
+            "matrix containing NaN/inf numpy returns a NaN factor without raising, so the constructor's gate does NOT reject non-finite "
+            "scale matrices (ModeStatistics(zeros((1,2)), [[[1,0],[0,nan]]], [5.0]) builds); finiteness of what fit_mvstud returns is "
+            "only checked on real runs",
+            "finiteness of the mode means is an IEEE notion outside the exact-real model: checked on real runs only",
+            "nan and +inf degrees of freedom are both the model's `none` (not finite)",
             "a clusterer `fit` that raises half-way (flag not set, object partly populated) is not modelled",
-            "SPD-ness of the fitted scale matrices and positivity of the fitted dof are C19's theorems; here only the constructor's own "
-            "inv/cholesky gate is modelled (abstract `cholesky?`), and checked numerically on real runs"]
+            "exceptions out of student.py / LinAlgError from the ModeStatistics constructor on a degenerate training cluster stop the run "
+            "before mutation: counted, not C14's subject (C18/C19)"]
 ASSUMPTIONS = ["cluster_every >= 1 and n_max_clusters in {None, 1, 2, ...} (SamplerConfig does not validate them: C18)",
-               "labels returned by predict are non-negative integers < n_clusters_ (C15_predict_range)",
-               "C14_cap takes C15's bound K <= max_iterations + 1 (Props.C15.C15_cap) as a hypothesis",
-               "the nearest-mean fallback of mode_index enters the model as an index < K supplied by the caller (argmin range: C15); which "
-               "mode is nearest is checked on the real code, not proved"]
+               "labels returned by predict are non-negative integers (C15_predict_range)",
+               "the trimmed training pool is non-empty whenever Trainer.run reaches from_particles (beta > 0 implies a committed history)",
+               "C14_cap_hgmm rests on Props.C15.C15_cap and its own hypothesis (the split oracle labels children validly)",
+               "C14_dof_positive: fit_mvstud answers a positive value whenever it answers a finite one (Props.C19.C19_nu_range)",
+               "C14_scale_matrices_posDef: a factor returned by cholesky on finite input honours the LAPACK contract (suite 5); symmetry of "
+               "the stored matrix is Props.C19.C19_sigma_symm"]
 
 IDS = 64          # id i of a training particle is encoded as u[i,0] = (i + 0.5)/IDS  (exact in binary)
+
+
+def translators():
+    from translate import g1_constants        # DOF_FALLBACK, used by C14_dof_fallback_constant_pos
+    return [g1_constants.generate()]
 
 
 def _quiet():
@@ -80,8 +105,12 @@ def _gen_labels(rng):
     return labels, k_fit, kind
 
 
-def run_from_particles(labels, d, rng, use_global=False):
-    """REAL ModeStatistics.from_particles (or from_global) on tagged points.  Returns (ms, fed, tapes): fed[c] = ids handed to the c-th fit."""
+DOF_SCRIPT = [5.0, 2.5, float("inf"), float("nan"), 1e6, 0.75, float("inf")]
+
+
+def run_from_particles(labels, d, rng, use_global=False, info=None):
+    """REAL ModeStatistics.from_particles (or from_global) on tagged points.  Returns (ms, fed, tapes): fed[c] = ids handed to the c-th fit.
+    The stub's degrees of freedom follow DOF_SCRIPT (finite, inf, nan) and a generated dof_fallback is passed: recorded in `info`."""
     import tempest.modes as tm
     n = len(labels)
     u = np.empty((n, d))
@@ -90,13 +119,20 @@ def run_from_particles(labels, d, rng, use_global=False):
         u[:, j] = [rng.randrange(1, 63) / 64.0 for _ in range(n)]
     w = np.array([rng.choice([1.0, 0.5, 0.25, 3.0, 1e-6]) for _ in range(n)])
     fed, tapes = [], []
+    off = rng.randrange(len(DOF_SCRIPT))
+    fb = rng.choice([1e6, 1.0, 7.5])
+    if info is not None:
+        info.update(fallback=fb, nus=[])
 
     def stub(data, *a, **k):
         ids = [int(round(float(x) * IDS - 0.5)) for x in np.asarray(data)[:, 0]]
         c = len(fed)
         fed.append(ids)
+        nu = DOF_SCRIPT[(off + c) % len(DOF_SCRIPT)]
+        if info is not None:
+            info["nus"].append(nu)
         # mode c is recognisable both by its mean and by its Cholesky factor
-        return np.full(d, (c + 1) / 8.0), np.eye(d) * ((c + 1) / 64.0) ** 2, 5.0
+        return np.full(d, (c + 1) / 8.0), np.eye(d) * ((c + 1) / 64.0) ** 2, nu
 
     def fake_choice(a, size=None, replace=True, p=None):
         n_c = int(a)
@@ -108,9 +144,9 @@ def run_from_particles(labels, d, rng, use_global=False):
 
     with common.patched(tm, "fit_mvstud", stub), common.patched(np.random, "choice", fake_choice):
         if use_global:
-            ms = tm.ModeStatistics.from_global(u, w)
+            ms = tm.ModeStatistics.from_global(u, w, dof_fallback=fb)
         else:
-            ms = tm.ModeStatistics.from_particles(u, w, np.array(labels, dtype=int))
+            ms = tm.ModeStatistics.from_particles(u, w, np.array(labels, dtype=int), dof_fallback=fb)
     return ms, fed, tapes
 
 
@@ -152,24 +188,33 @@ def kernel_lookup(ms, kernel, assign_vec, k, d):
         return ("IndexError",)
 
 
-def probe_positions(rng, nw):
-    """probe coordinate t = odd/64: never equidistant from two stub means (c+1)/8"""
-    return [(2 * rng.randrange(2, 30) + 1) / 64.0 for _ in range(nw)]
-
-
-def nearest_stub_mean(t, k_modes):
+def probe_rows(rng, nw, d, k_modes):
+    """probe positions (dyadic k/64 per coordinate, on or off the diagonal) with their EXACT squared distances to the stub means
+    (c+1)/8*(1,..,1); rows whose two smallest distances are closer than 1e-3 (a float argmin could go either way) are redrawn"""
     from fractions import Fraction
-    return min(range(k_modes), key=lambda c: abs(Fraction(t) - Fraction(c + 1, 8)))
+    rows, d2s = [], []
+    while len(rows) < nw:
+        if rng.random() < 0.4:
+            row = [Fraction(2 * rng.randrange(2, 30) + 1, 64)] * d
+        else:
+            row = [Fraction(rng.randrange(1, 64), 64) for _ in range(d)]
+        d2 = [sum((x - Fraction(c + 1, 8)) ** 2 for x in row) for c in range(k_modes)]
+        srt = sorted(d2)
+        if len(srt) > 1 and srt[1] - srt[0] < Fraction(1, 1000):
+            continue
+        rows.append([float(x) for x in row])
+        d2s.append(d2)
+    return rows, d2s
 
 
-def mutator_map(ms, assign, ts, d, kernel):
+def mutator_map(ms, assign, rows, d, kernel):
     """REAL Mutator.run at beta > 0 on a real StateManager, parallel_mcmc intercepted.
     Returns (indices handed to parallel_mcmc, state['assignments'] afterwards, mode_index's own answer)."""
     import tempest.steps.mutate as mut
     from tempest.state_manager import StateManager
     nw = len(assign)
     st = StateManager(d)
-    u = np.array([[t] * d for t in ts], dtype=float)
+    u = np.array(rows, dtype=float).reshape(nw, d)
     st.update_current({"u": u, "x": 10 * u - 5, "logl": np.zeros(nw), "assignments": np.array(assign, dtype=int), "beta": 0.5,
                        "calls": 0, "iter": 3, "logz": 0.0})
     got = {}
@@ -204,11 +249,19 @@ def correspond_labels(tier, drv):
     for _ in range(n_cases):
         labels, k_fit, kind = _gen_labels(rng)
         d = rng.randint(1, 3)
+        info = {}
         try:
-            ms, fed, tapes = run_from_particles(labels, d, rng)
+            ms, fed, tapes = run_from_particles(labels, d, rng, info=info)
         except Exception as e:  # noqa
             c1.disagree(input={"labels": labels}, impl=f"from_particles raised {type(e).__name__}: {e}", model="builds modes")
             continue
+        # degrees of freedom stored vs `applyDofFallback` (nan and inf are both "not finite")
+        for cidx, nu in enumerate(info["nus"]):
+            fin = np.isfinite(nu)
+            lines1.append(f"modes.dof nu={frac2s(Fraction(nu)) if fin else 'inf'} fb={frac2s(Fraction(info['fallback']))}")
+            recs1.append((labels, frac2s(Fraction(float(ms.degrees_of_freedom[cidx])))
+                          if np.isfinite(ms.degrees_of_freedom[cidx]) else repr(float(ms.degrees_of_freedom[cidx]))))
+            c1.count("dof_finite" if fin else ("dof_nan->fallback" if nu != nu else "dof_inf->fallback"))
         members = _members(fed, tapes)
         distinct = sorted(set(labels))
         nontrivial = len(distinct) >= 2 and (distinct != list(range(len(distinct))) or labels != sorted(labels))
@@ -222,16 +275,16 @@ def correspond_labels(tier, drv):
         for kernel in ("rwm", "tpcn"):
             nw = rng.randint(1, 4)
             assign = [rng.randint(0, k_fit + 2) for _ in range(nw)]
-            ts = probe_positions(rng, nw)
+            rows, d2s = probe_rows(rng, nw, d, ms.K)
             try:
-                idx, lab, direct, same = mutator_map(ms, assign, ts, d, kernel)
+                idx, lab, direct, same = mutator_map(ms, assign, rows, d, kernel)
             except Exception as e:  # noqa
                 c2.disagree(input={"labels": labels, "assign": assign}, impl=f"Mutator.run raised {type(e).__name__}: {e}",
                             model="maps every label", labels=labels, kind="labels")
                 continue
             for k in range(nw):
-                near = nearest_stub_mean(ts[k], ms.K)
-                lines2.append(f"modes.lookup labels={flist(labels, str)} assign={assign[k]} near={near}")
+                lines2.append(f"modes.lookup labels={flist(labels, str)} assign={assign[k]} d2={flist(d2s[k], frac2s)}")
+                c2.count("probe_on_diagonal" if len(set(rows[k])) == 1 else "probe_off_diagonal")
                 g = kernel_lookup(ms, kernel, idx, k, d)
                 if (idx, lab) != direct or not same:
                     impl = f"Mutator.run handed {idx}/{lab} but mode_index says {direct}"
@@ -243,7 +296,7 @@ def correspond_labels(tier, drv):
                     impl = f"unexpected: index {idx[k]} but kernel used {g}"
                 recs2.append((labels, assign[k], kernel, impl))
                 c2.count("present_label" if assign[k] in distinct else "label_without_mode(reassigned to nearest)")
-            c2.case((labels, kernel, assign, ts), nontrivial)
+            c2.case((labels, kernel, assign, rows), nontrivial)
             c2.count(kernel)
     # the `labels is None` path: real from_global (one mode fitted from every particle), assignments all zero
     for _ in range(12 if tier == "quick" else 200):
@@ -251,7 +304,7 @@ def correspond_labels(tier, drv):
         kernel = rng.choice(["rwm", "tpcn"])
         ms, fed, tapes = run_from_particles([0] * n, d, rng, use_global=True)
         members = _members(fed, tapes)
-        idx, lab, direct, same = mutator_map(ms, [0, 0], probe_positions(rng, 2), d, kernel)
+        idx, lab, direct, same = mutator_map(ms, [0, 0], probe_rows(rng, 2, d, 1)[0], d, kernel)
         g = kernel_lookup(ms, kernel, idx, 1, d)
         lines2.append(f"modes.lookup labels={flist([0] * n, str)} assign=0 near=0 stored=none")
         ok = (idx, lab) == direct and same and g == ("mode", idx[1]) and ms.labels is None
@@ -581,7 +634,8 @@ def real_run(cfg):
         if not foreign:
             problems.append(msg)
     return {"problems": problems, "foreign": foreign, "reassigned": last["reassigned"], "events": "".join(log), "bits": bits, "resume": resume_idx,
-            "crashed": crashed is not None, "iter": int(s.state.get_current("iter")) if s is not None else None}
+            "crashed": crashed is not None, "iter": int(s.state.get_current("iter")) if s is not None else None,
+            "fitted": bool(s is not None and s._core.trainer.clusterer.n_clusters_ > 0)}
 
 
 def _run_grid(tier, rng):
@@ -595,6 +649,9 @@ def _run_grid(tier, rng):
         for ra in (3, 5, 6):
             cfgs.append({"ce": ce, "cap": rng.choice([None, 2]), "normalize": rng.random() < 0.5, "kernel": "tpcn",
                          "seed": 200 + len(cfgs), "target": 0.0, "resume_after": ra})
+    for dd, ce in ((1, 2), (3, 1), (3, 3)):
+        cfgs.append({"ce": ce, "cap": None, "normalize": dd == 3, "kernel": "tpcn", "seed": 300 + dd + ce, "target": 0.0,
+                     "resume_after": None, "d": dd})
     for st in (STALE_CFGS[:2] if tier == "quick" else STALE_CFGS):
         cfgs.append({"ce": st["ce"], "cap": None, "normalize": True, "kernel": "tpcn", "seed": st["seed"], "target": st["target"],
                      "n_total": 256, "resume_after": None})
@@ -602,7 +659,7 @@ def _run_grid(tier, rng):
         for k in range(120):
             cfgs.append({"ce": rng.choice([1, 2, 3, 5, 7]), "cap": rng.choice([None, 1, 2, 3]), "normalize": rng.random() < 0.5,
                          "kernel": rng.choice(["tpcn", "rwm"]), "seed": 1000 + k, "target": rng.choice([0.0, 0.0, 1.0]),
-                         "resume_after": rng.choice([None, None, 2, 4, 7])})
+                         "resume_after": rng.choice([None, None, 2, 4, 7]), "d": rng.choice([1, 2, 2, 3])})
     return cfgs
 
 
@@ -614,6 +671,7 @@ def correspond_runs(tier, drv):
         r = real_run(cfg)
         c.case(cfg, True)
         c.count("resume" if cfg["resume_after"] is not None else "single_run")
+        c.count(f"d={cfg.get('d', 2)}")
         c.count("mutations_checked", sum(1 for b in r["bits"] if not b))
         if r["reassigned"]:
             c.count("runs_with_a_label_without_mode(reassigned_to_nearest)")
@@ -626,11 +684,130 @@ def correspond_runs(tier, drv):
         if r["crashed"]:
             continue       # the last iteration was not committed: no complete beta record to compare with
         lines.append(_cad_line(cfg["ce"], r["bits"], r["resume"], 0, True))
-        recs.append((cfg, f"{r['events']} ok fitted=1 iter={r['iter']}"))
+        recs.append((cfg, f"{r['events']} ok fitted={1 if r['fitted'] else 0} iter={r['iter']}"))
+    # the wiring core.py -> clusterer (`max_iterations`), read off a real Sampler
+    from tempest import Sampler
+    for cap in [None] + list(range(1, 9)):
+        with _quiet():
+            smp = Sampler(_prior, make_like(0.0), 2, n_particles=8, clustering=True, n_max_clusters=cap)
+        cl = smp._core.trainer.clusterer
+        lines.append(f"wire.maxit cap={'none' if cap is None else cap}")
+        shared = cl is smp._core.resampler.clusterer
+        recs.append(({"cap": cap}, str(int(cl.max_iterations)) if shared else "trainer and resampler do not share one clusterer"))
+        c.case(("wiring", cap), cap is not None)
+        c.count("wiring")
     for (cfg, impl), line, ans in zip(recs, lines, drv.batch(lines)):
         if ans != impl:
-            c.disagree(input=line, impl=impl, model=ans, kind="run", cfg=cfg)
+            c.disagree(input=line, impl=impl, model=ans, kind="run" if "ce" in cfg else "wiring", cfg=cfg)
         c.sample({"cfg": cfg, "op": line, "impl": impl, "model": ans})
+    return c
+
+
+# ------------------------------------------------------------------ suite 5: what a successful np.linalg.cholesky certifies
+def _sym_lower(a):
+    return np.tril(a) + np.tril(a, -1).T
+
+
+def _gen_matrix(rng, d):
+    rs = np.random.RandomState(rng.randrange(2 ** 31))
+    kind = rng.choice(["spd", "spd", "spd_scaled", "indefinite", "negdef", "rank_deficient", "nonsym_spd_lower", "nan", "tiny_spd", "zero"])
+    b = rs.randn(d, d)
+    if kind == "spd":
+        a = b @ b.T + 0.1 * np.eye(d)
+    elif kind == "spd_scaled":
+        sc = np.diag(10.0 ** rs.uniform(-4, 4, d))
+        a = sc @ (b @ b.T + 0.1 * np.eye(d)) @ sc
+    elif kind == "indefinite":
+        a = b + b.T
+        a[0, 0] = -abs(a[0, 0]) - 1.0
+    elif kind == "negdef":
+        a = -(b @ b.T + 0.1 * np.eye(d))
+    elif kind == "rank_deficient":
+        v = rs.randn(d, max(1, d - 1))
+        a = v @ v.T if d > 1 else np.zeros((1, 1))
+    elif kind == "nonsym_spd_lower":
+        a = b @ b.T + 0.1 * np.eye(d)
+        a = a + np.triu(rs.randn(d, d) * 5.0, 1)       # garbage above the diagonal: LAPACK never reads it
+    elif kind == "nan":
+        a = b @ b.T + 0.1 * np.eye(d)
+        a[rs.randint(d), 0] = np.nan
+    elif kind == "tiny_spd":
+        a = (b @ b.T + 0.1 * np.eye(d)) * 1e-12
+    else:
+        a = np.zeros((d, d))
+    return kind, a
+
+
+def check_factor(a, l):
+    """None if `l` honours the contract `IsCholeskyFactor a l` (Lemmas.CholeskyPD) within rounding, else a description"""
+    d = a.shape[0]
+    if not np.all(np.isfinite(_sym_lower(a))):
+        return "NONFINITE"      # outside the contract (and outside the exact-real model): see MODELLED
+    if np.any(np.triu(l, 1) != 0.0):
+        return "returned factor is not lower triangular"
+    if not np.all(np.diag(l) > 0):
+        return "returned factor has a non-positive diagonal entry"
+    s = _sym_lower(a)
+    if not np.all(np.isfinite(s)):
+        return "factor returned for a matrix whose lower triangle is not finite"
+    if np.abs(l @ l.T - s).max() > 1e-9 * (1.0 + np.abs(s).max()) * d:
+        return f"L L^T differs from the lower-triangle matrix by {np.abs(l @ l.T - s).max():.3e}"
+    return None
+
+
+def correspond_cholesky(tier):
+    from tempest.modes import ModeStatistics
+    rng = common.rng_for("C14.cholesky")
+    c = Corr("cholesky-contract", "contract check, tolerance 1e-9*(1+|A|)*d on L L^T = symLower(A); decisions compared only when the smallest "
+                                   "eigenvalue is clear of 0 (else counted as near_ties)")
+    for _ in range(300 if tier == "quick" else 5000):
+        d = rng.randint(1, 4)
+        k = rng.randint(1, 3)
+        mats = [_gen_matrix(rng, d) for _ in range(k)]
+        batch = np.array([m for _, m in mats])
+        # the real constructor: one batched inv, one batched cholesky; raises or yields an object
+        try:
+            with warnings.catch_warnings():
+                warnings.simplefilter("ignore")
+                ms = ModeStatistics(np.zeros((k, d)), batch, np.full(k, 5.0))
+            built = True
+        except np.linalg.LinAlgError:
+            built = False
+        c.case([m.tolist() for _, m in mats], any(kd not in ("spd",) for kd, _ in mats))
+        c.count("constructor_built" if built else "constructor_raised")
+        for j, (kind, a) in enumerate(mats):
+            c.count(kind)
+            s_ = _sym_lower(a)
+            finite = bool(np.all(np.isfinite(s_)))
+            lam = float(np.linalg.eigvalsh(s_).min()) if finite else float("nan")
+            scale = float(np.abs(s_).max()) if finite else 1.0
+            if built:
+                msg = check_factor(a, ms.chol_covariances[j])
+                if msg == "NONFINITE":
+                    c.count("nonfinite_scale_matrix_passes_the_constructor_gate")
+                    msg = None
+                elif msg is None and not (lam > -1e-9 * (1.0 + scale)):
+                    msg = f"a mode object exists although the scale matrix has eigenvalue {lam!r}"
+                if msg:
+                    c.disagree(input={"matrix": a.tolist(), "kind": kind}, impl=msg, model="IsCholeskyFactor A L  =>  symLower A positive definite",
+                               kind="cholesky", matrix=a.tolist())
+            try:
+                with warnings.catch_warnings():
+                    warnings.simplefilter("ignore")
+                    l = np.linalg.cholesky(a)
+                msg = check_factor(a, l)
+                if msg == "NONFINITE":
+                    c.count("cholesky_returns_on_nonfinite_input")
+                elif msg:
+                    c.disagree(input={"matrix": a.tolist(), "kind": kind}, impl=msg, model="contract of a returned factor", kind="cholesky",
+                               matrix=a.tolist())
+                elif finite and lam < 1e-9 * (1.0 + scale):
+                    c.near_ties += 1
+            except np.linalg.LinAlgError:
+                if finite and lam > 1e-9 * (1.0 + scale):
+                    c.disagree(input={"matrix": a.tolist(), "kind": kind}, impl=f"cholesky raised on a matrix with smallest eigenvalue {lam!r}",
+                               model="(completeness, not needed by the theorem)", kind="cholesky", matrix=a.tolist())
+        c.sample({"kinds": [kd for kd, _ in mats], "d": d, "constructor": "built" if built else "raised LinAlgError"})
     return c
 
 
@@ -639,6 +816,7 @@ def correspond(tier):
     out = correspond_labels(tier, drv)
     out.append(correspond_cadence(tier, drv))
     out.append(correspond_runs(tier, drv))
+    out.append(correspond_cholesky(tier))
     return out
 
 
@@ -652,8 +830,8 @@ def oracle_labels(labels, kernel, d, rng):
     if ms.K != len(distinct):
         return f"ModeStatistics.K={ms.K} for {len(distinct)} distinct labels"
     assign = list(range(max(labels) + 3))
-    ts = probe_positions(rng, len(assign))
-    idx, lab, direct, same = mutator_map(ms, assign, ts, d, kernel)
+    rows, _ = probe_rows(rng, len(assign), d, ms.K)
+    idx, lab, direct, same = mutator_map(ms, assign, rows, d, kernel)
     if (idx, lab) != direct or not same:
         return f"Mutator.run handed {idx}/{lab} to the kernel but mode_index returns {direct}"
     for k, a in enumerate(assign):
@@ -669,6 +847,28 @@ def oracle_labels(labels, kernel, d, rng):
         if a in distinct and lab[k] != a:
             return f"raw label {a} has a mode but the particle was relabelled to {lab[k]}"
     return None
+
+
+def oracle_gate(matrix):
+    """a mode object must not exist for a finite scale matrix that is clearly not positive definite, and the factor it stores must
+    be a Cholesky factor of the matrix"""
+    from tempest.modes import ModeStatistics
+    a = np.array(matrix, dtype=float)
+    d = a.shape[0]
+    s_ = _sym_lower(a)
+    if not np.all(np.isfinite(s_)):
+        return None
+    try:
+        with warnings.catch_warnings():
+            warnings.simplefilter("ignore")
+            ms = ModeStatistics(np.zeros((1, d)), a.reshape(1, d, d), np.array([5.0]))
+    except np.linalg.LinAlgError:
+        return None
+    lam = float(np.linalg.eigvalsh(s_).min())
+    if lam < -1e-9 * (1.0 + float(np.abs(s_).max())):
+        return f"ModeStatistics accepted a scale matrix with eigenvalue {lam!r}: a mode that is not positive definite reaches the kernel"
+    msg = check_factor(a, ms.chol_covariances[0])
+    return None if msg in (None, "NONFINITE") else f"ModeStatistics.chol_covariances: {msg}"
 
 
 def oracle_cadence(ce, sched, resume, iter0):
@@ -700,6 +900,10 @@ def search(tier, hints):
                     if msg:
                         found.append({"what": msg, "kind": "labels", "labels": h["labels"], "kernel": kernel})
                         break
+            elif h.get("kind") == "cholesky" and h.get("matrix"):
+                msg = oracle_gate(h["matrix"])
+                if msg:
+                    found.append({"what": msg, "kind": "cholesky", "matrix": h["matrix"]})
             elif h.get("kind") == "run" and h.get("cfg"):
                 r = real_run(h["cfg"])
                 if r["problems"]:
@@ -727,6 +931,14 @@ def search(tier, hints):
             msg = f"from_particles/Mutator/kernel raised {type(e).__name__}: {e}"
         if msg:
             found.append({"what": msg, "kind": "labels", "labels": labels, "kernel": kernel})
+    # the constructor's gate
+    for _ in range(200 if quick else 3000):
+        if len(found) >= 3:
+            break
+        kind, a = _gen_matrix(rng, rng.randint(1, 4))
+        msg = oracle_gate(a)
+        if msg:
+            found.append({"what": msg, "kind": "cholesky", "matrix": a.tolist()})
     # real runs over the cadence x cap x normalize grid, after a real save/load/resume, and with stale clusterer labels
     if len(found) < 3:
         for cfg in _run_grid(tier, rng):
@@ -748,6 +960,8 @@ def replay(obj):
         msg = oracle_cadence(f["ce"], f["sched"], f["resume"], f["iter0"])
     elif kind == "labels":
         msg = oracle_labels(f["labels"], f["kernel"], 2, common.rng_for("C14.replay"))
+    elif kind == "cholesky":
+        msg = oracle_gate(f["matrix"])
     elif kind == "run":
         r = real_run(f["cfg"])
         msg = (r["problems"] or [None])[0]
